@@ -298,6 +298,8 @@ def jobs(tier):
         kfid = None
         if c.name.startswith('estimatefee_limit') and 'nodefault' not in c.name:
             kfid = 'C20-estimatefee-falls-back-to-network-default'
+        elif c.name.startswith('getbalance_limit'):
+            kfid = 'C20-getbalance-zero-on-error-limit'
         elif c.name.startswith('isspent_limit'):
             kfid = 'C20-isspent-failure-reported-as-unspent'
         j = Job(c.name, engine='ch', ch_file=CONDS_FILE, ch_func=c.func, ch_timeout=c.timeout, note=c.proves, known_finding=kfid)
